@@ -168,7 +168,8 @@ func newPluginContainer() *PluginContainer {
 
 func (p *PluginContainer) cloneAndAppendMiddle(plugins ...Plugin) *PluginContainer {
 	middle := newPluginSingleContainer()
-	middle.plugins = append(p.middle.GetAll(), plugins...)
+	middle.plugins = append(middle.plugins, p.middle.GetAll()...)
+	middle.plugins = append(middle.plugins, plugins...)
 
 	newPluginContainer := newPluginContainer()
 	newPluginContainer.middle = middle
